@@ -717,8 +717,17 @@ def run(ctx):
             n_rep += 1
         elif res is None and c["id"] in bad_rows:
             unexplained.append(c)
-        elif res == "known" and c["id"] in bad_rows:     # a known finding does not excuse a model/implementation disagreement
-            unexplained.append(c)
+        elif res == "known" and c["id"] in bad_rows:
+            # a known finding does not excuse a model/implementation disagreement: every failing Coq case must be a
+            # predicate case (prop / flag) that the Python evaluation of the predicate reproduces for the same set
+            pf = row_failures(rows[c["id"]], wyck)
+            for m in bad_rows[c["id"]]:
+                same = [f for f in pf if ("through" in f) == (m["key"] == "direct")
+                        and ((m["kind"] == "prop" and f.get("letter") == m.get("letter") and f["clause"] != "call-raised")
+                             or (m["kind"] == "flag" and f["clause"] == "has-free-parameters-flag"))]
+                if not same:
+                    unexplained.append(c)
+                    break
     for c in unexplained[:2]:
         ctx.violation({"kind": "model-and-implementation-disagree", "broken": "correspondence c08: agree_set / prop_set / flag_case (coq/Symmetry/ParamSolve.v)",
                        "cases": bad_rows[c["id"]][:6], "crystal": c["crystal"], "tol": c.get("tol", TOL),
